@@ -35,10 +35,12 @@ type Switch struct {
 // consults no PRNG; the other kinds draw from a private PRNG seeded with Seed
 // and the resulting decisions are recorded in explicit form.
 type Policy struct {
-	Kind     string   `json:"kind"`               // explicit | random | pct | rr | serial
+	Kind     string   `json:"kind"`               // explicit | random | biased | pct | rr | serial
 	Seed     uint64   `json:"seed,omitempty"`     //
 	PNum     int      `json:"p_num,omitempty"`    // random: switch with probability PNum/PDen at each yield
 	PDen     int      `json:"p_den,omitempty"`    //
+	HotNum   int      `json:"hot_num,omitempty"`  // biased: switch probability HotNum/HotDen at sites that touch shared state
+	HotDen   int      `json:"hot_den,omitempty"`  //          (package-level variables, sync calls, locks); PNum/PDen elsewhere
 	Quantum  int      `json:"quantum,omitempty"`  // rr: yields per turn
 	Depth    int      `json:"depth,omitempty"`    // pct: number of priority change points + 1
 	Horizon  int      `json:"horizon,omitempty"`  // pct: change points are placed in [0,Horizon)
@@ -82,6 +84,7 @@ var (
 	deadlock      bool
 	lockWaits     uint64
 	siteHits      []uint32
+	hotSite       []bool
 
 	// OnDeadlock is called (on the goroutine that detects it) when every live
 	// goroutine is spinning on a library lock. It must not return.
@@ -143,6 +146,15 @@ func Begin(n int, p Policy) {
 			siteHits[i] = 0
 		}
 	}
+	if len(hotSite) != len(Sites) {
+		hotSite = make([]bool, len(Sites))
+		for i, st := range Sites {
+			switch st.Kind {
+			case "global", "sync", "lock":
+				hotSite[i] = true
+			}
+		}
+	}
 	for i := 0; i < MaxG; i++ {
 		gs[i] = gstate{site: -2}
 	}
@@ -181,7 +193,7 @@ func Begin(n int, p Policy) {
 			first = pol.Switches[0].To
 			polIdx = 1
 		}
-	case "random":
+	case "random", "biased":
 		first = int(rnd() % uint64(n))
 	case "pct":
 		first = highestPrio(-1)
@@ -283,7 +295,7 @@ func Exit(i int) {
 			next = pol.Switches[polIdx].To
 			polIdx++
 		}
-	case "random":
+	case "random", "biased":
 		k := int(rnd() % uint64(ng))
 		next = k
 	case "pct":
@@ -375,6 +387,14 @@ func yield(site int) {
 		}
 	case "random":
 		if pol.PDen > 0 && int(rnd()%uint64(pol.PDen)) < pol.PNum {
+			next = int(rnd() % uint64(ng))
+		}
+	case "biased":
+		num, den := pol.PNum, pol.PDen
+		if site >= 0 && site < len(hotSite) && hotSite[site] {
+			num, den = pol.HotNum, pol.HotDen
+		}
+		if den > 0 && int(rnd()%uint64(den)) < num {
 			next = int(rnd() % uint64(ng))
 		}
 	case "rr":
